@@ -569,6 +569,41 @@ func checkC19(c *Ctx) Meta {
 	}
 
 	// ---- EXIST: lookups return a bucket only when its index entry was read successfully
+	// iterators are walked from their first element: Next() is the loop condition and nothing else
+	// repositions the iterator
+	{
+		var bad []string
+		n := 0
+		for fn := range c.AllFuncs {
+			if pkgOf(fn) != pkgLDB {
+				continue
+			}
+			allInstrs(fn, func(in ssa.Instruction) {
+				cl, ok := in.(*ssa.Call)
+				if !ok || !cl.Call.IsInvoke() {
+					return
+				}
+				if !strings.HasSuffix(cl.Call.Value.Type().String(), "iterator.Iterator") {
+					return
+				}
+				switch cl.Call.Method.Name() {
+				case "First", "Last", "Seek", "Prev":
+					bad = append(bad, fn.Name()+": iterator."+cl.Call.Method.Name()+" at "+c.Pos(cl.Pos()))
+				case "Next":
+					n++
+					if !blockReentered(fn, cl) {
+						bad = append(bad, fn.Name()+": iterator.Next outside the loop condition at "+c.Pos(cl.Pos()))
+					}
+				}
+			})
+		}
+		sort.Strings(bad)
+		if len(bad) > 0 {
+			c.Bad("C19-PREFIX", "iterators-walk-every-element", "", strings.Join(bad, "; ")+": positioning the iterator before the `for it.Next()` loop makes the loop start at the second element — the smallest key of a cleared or deleted bucket survives")
+		} else if n > 0 {
+			c.OK("C19-PREFIX", "iterators-walk-every-element", "", fmt.Sprintf("%d iterator loops, each driven by Next() only", n))
+		}
+	}
 	// the deletion batch is only added to and written
 	{
 		var bad []string
